@@ -16,6 +16,7 @@
   "object i" below ranges over both kinds.
 -/
 import PsutilModel.Proofs.C01Args
+import PsutilModel.Proofs.C01Hid
 import PsutilModel.Model.C01Gen
 namespace Psutil.C01
 open Spec
@@ -330,11 +331,10 @@ mounts, LSMs): then `Process._init` swallows AccessDenied and keeps `_ident = (p
 `None`.  The statement below — `C01_no_wrong_owner` for histories in which stat files may be hidden — is
 false; its witness is replayed on the real code by the check (corpus `unknown-start-recycled`). -/
 
-/-- histories that may hide `/proc/pid/stat`: only "the published boot time is never 0" is asked -/
-def HistAnyReadability (h : List Ev) : Prop := ∀ e ∈ h, ∀ b, e = .k (.setBtime b) → b ≠ 0
-
+/-- `C01_no_wrong_owner` with `HistOKb` (only "the published boot time is never 0": stat files may be hidden)
+    in place of `HistOK` -/
 def NoWrongOwner_AnyReadability_Full (c : Cfg) : Prop :=
-  ∀ (b0 : Nat), b0 ≠ 0 → ∀ (h : List Ev), HistAnyReadability h →
+  ∀ (b0 : Nat), b0 ≠ 0 → ∀ (h : List Ev), HistOKb h →
     ∀ e ∈ (run c (St.init b0) h).log, EffOK (run c (St.init b0) h).ps.objs e
 
 /-- PID 7's stat is unreadable when the object is built (`_ident = (7, None)`); the process ends, PID 7 is taken
@@ -351,13 +351,25 @@ theorem C01_unknown_start_counterexample : ¬ NoWrongOwner_AnyReadability_Full c
   have hlog : (run cfg (St.init 1000) witnessUnknownStart).log = [⟨.kill, 0, 7, [9], some 1, none⟩] := by decide
   have hobj : (run cfg (St.init 1000) witnessUnknownStart).ps.objs[0]? = some ⟨7, none, none, false, false, 0⟩ := by
     decide
-  obtain ⟨o, ho, _, hw, _⟩ := H 1000 (by decide) witnessUnknownStart
-    (by intro e he b hb; subst hb; simp [witnessUnknownStart] at he) ⟨.kill, 0, 7, [9], some 1, none⟩
+  obtain ⟨o, ho, _, hw, _⟩ := H 1000 (by decide) witnessUnknownStart (by decide) ⟨.kill, 0, 7, [9], some 1, none⟩
     (by rw [hlog]; exact List.mem_cons_self)
   simp only at ho hw
   rw [hobj] at ho
   cases ho
   exact absurd hw (by decide)
+
+/-- **C01_known_start_no_wrong_owner.** What does survive unreadable stat files.  After ANY history — `hide`
+    events included; only the published boot time must never be 0 — every OS call in the log (carried out or
+    refused) was made by an existing object under exactly that object's PID, a signal never went to PID ≤ 0, and
+    whenever the asking object's start time is known (`_ident = (pid, t)`: its stat file was readable when it
+    was built) the PID was held at that instant by the very incarnation the object was built for.  So the
+    counterexample above needs an object with `_ident = (pid, None)`; an object with a known start is at worst
+    refused too eagerly (NoSuchProcess while its stat file is hidden: `C02_unknown_start_counterexample`). -/
+theorem C01_known_start_no_wrong_owner (b0 : Nat) (hb : b0 ≠ 0) (h : List Ev) (hh : HistOKb h) :
+    ∀ e ∈ (run cfg (St.init b0) h).log,
+      ∃ o, (run cfg (St.init b0) h).ps.objs[e.obj]? = some o ∧ e.pid = (o.pid : Int)
+        ∧ (e.kind = .kill → 0 < e.pid) ∧ (o.ident ≠ none → e.owner = some o.ghost) :=
+  run_log2 cfg_good h _ hh (init_inv2 _ hb) (fun e he => by simp [St.init] at he)
 
 /-- as soon as the new holder's stat can be read the same call is refused: the fresh `(7, t)` differs from
     `(7, None)` -/
